@@ -151,6 +151,14 @@ def run_case(ctx, g, rng):
             keys = list(dict.fromkeys(keys))
             S.counters["wl:unknown-keys-that-are-twins-of-known-ones"] += 1
     vals = rng.sample(allu + ["y1/", "y2/", "x1/"], k=len(keys))
+    if rng.random() < 0.3 and vals:
+        # an unused new URI prefix that extends a registered one, or is a proper head of one, or is empty: unused is
+        # unused - "becomes canonical exactly when it is unused elsewhere" (seed C12-Q: ownership by longest-prefix match)
+        base = rng.choice(allu)
+        cand = rng.choice([base + "GO_", base + "x", base[:-1], base[: len(base) // 2], ""])
+        if cand not in vals:
+            vals[rng.randrange(len(vals))] = cand
+            S.counters["wl:new-uri-prefixes-nested-with-registered-ones"] += 1
     m = dict(zip(keys, vals))
     # the converter may have a past (registered record by record, grown through merges) and any delimiter
     c, how = gen.build(api, recs, d, rng, share_lists=True)
